@@ -375,6 +375,36 @@ def case_tangent(ctx, cfg):
                 if proj_eq(t[0].array, t[1].array, 1e-9):
                     ctx.fail("tangent:from-point:coincident", "tangent", inputs, "two different tangents", [t[0].array, t[1].array])
                     return
+        # points CLOSE TO the conic (2^-17 = 7.6e-6 and 2^-12 off a lattice point of it: hundreds of times the library's
+        # tolerance, exactly representable): not on the conic, so two tangents through the point
+        for p in P:
+            pv = np.array(p, dtype=np.int64)
+            if p[2] == 0 or int(pv @ Ai @ pv) != 0:
+                continue
+            for k_ax, step in ((0, 2.0**-17), (1, -(2.0**-17)), (0, -(2.0**-12))):
+                q = pv.astype(float) / p[2]
+                q[k_ax] += step
+                qf = [F(float(x)) for x in q]
+                val_exact = sum(F(int(Ai[i, j])) * qf[i] * qf[j] for i in range(3) for j in range(3))
+                if abs(val_exact) < 1e-6:
+                    # moved (nearly) along the tangent: the form value is second order in the step and within a factor 100
+                    # of the library's absolute tolerance - "on the conic" is then a legitimate answer; not judged
+                    ctx.tally("near-conic-point:within-100-tolerances:not-judged")
+                    continue
+                ctx.state((k, tuple(p), "near", k_ax, step))
+                t, e = ctx.call(C.tangent, G.Point(q))
+                ctx.trace()
+                inputs = {"conic": A, "at": q, "off_the_conic_by": float(val_exact)}
+                ok = e is None and isinstance(t, tuple) and len(t) == 2
+                if ok:
+                    for ln in t:
+                        la = np.asarray(ln.array)
+                        val = la @ adj.astype(complex) @ la
+                        ok = ok and incident(la, q, 1e-7) and abs(val) <= 1e-6 * np.linalg.norm(adj) * np.linalg.norm(la) ** 2
+                    ok = ok and not proj_eq(t[0].array, t[1].array, 1e-9)
+                if not ok:
+                    ctx.fail(f"tangent:from-point-close-to-the-conic:{type(e).__name__ if e is not None else 'value'}", "tangent", inputs, "two different tangents through the point", e if e is not None else [getattr(x, "array", x) for x in (t if isinstance(t, tuple) else (t,))])
+                    return
         # pole / polar reciprocity through the library's predicates
         PC = G.PointCollection(np.array(P, dtype=float))
         for p in P[::5]:
